@@ -516,12 +516,14 @@ outer2:
 
 	defer func() {
 		for _, t := range conn.tracks {
+			t.layerMu.Lock()
 			layer := t.getLayerInfo()
 			layer.limitSid = limitSid
 			if limitSid {
 				layer.wantedSid = 0
 			}
 			t.setLayerInfo(layer)
+			t.layerMu.Unlock()
 		}
 	}()
 
